@@ -36,7 +36,7 @@ Ltac gored :=
   cbn [Nat.add i_eval i_assign i_exec i_loop i_call eval_step assign_step exec_step call_step
        loop_step evals fields execs assigns select matches range type_of find_fn Pos.eqb andb orb negb
        bind_all set lookup rbind at_state zero_of arith spread length Nat.eqb ret_val as_slice re_slice fold_left
-       is_place fst snd app Bool.eqb fn_recv fn_params fn_body it_val arr_val lst_val lcls_val stk_val set_val col_val rank_ext].
+       is_place is_lplace fst snd app Bool.eqb fn_recv fn_params fn_wb fn_body tag_args untag bare find_tag collect_wb with_wb un_wb store_wbs existsb nth_error Nat.pred it_val it_rep arr_val lst_val lcls_val stk_val set_val col_val rank_ext cmp_ext srt_val ranker_val].
 
 (* look a method (or a struct declaration) up in the generated program, by computation *)
 Ltac gofind :=
@@ -142,5 +142,37 @@ Lemma elems_skipn (n : nat) (l : list A) : skipn n (elems l) = elems (skipn n l)
 Proof. unfold elems. apply skipn_map. Qed.
 Lemma elems_app (a b : list A) : elems a ++ elems b = elems (a ++ b).
 Proof. unfold elems. symmetry. apply map_app. Qed.
+
+Lemma zsub_elems (l : list A) (lo hi : Z) : (0 <= lo <= hi)%Z -> (hi <= Z.of_nat (length l))%Z ->
+  zsub A (elems l) lo hi = Some (elems (firstn (Z.to_nat (hi - lo)) (skipn (Z.to_nat lo) l))).
+Proof.
+  intros H1 H2. unfold zsub. rewrite elems_length.
+  destruct (Z.ltb_spec lo 0); [lia|]. destruct (Z.ltb_spec hi lo); [lia|].
+  destruct (Z.ltb_spec (Z.of_nat (length l)) hi); [lia|]. cbn [orb].
+  rewrite elems_skipn, elems_firstn. reflexivity.
+Qed.
+
+Lemma zsub_none (l : list (val A)) (lo hi : Z) : (hi < lo \/ Z.of_nat (length l) < hi)%Z -> zsub A l lo hi = None.
+Proof.
+  intros H. unfold zsub. destruct (Z.ltb_spec lo 0); [reflexivity|]. destruct (Z.ltb_spec hi lo); [reflexivity|].
+  destruct (Z.ltb_spec (Z.of_nat (length l)) hi); [reflexivity|lia].
+Qed.
+
+Lemma zcopy_exact (z : val A) (src : list (val A)) : zcopy A (repeat z (length src)) src = src.
+Proof.
+  unfold zcopy. rewrite repeat_length, firstn_all.
+  rewrite skipn_all2 by (rewrite repeat_length; lia). apply app_nil_r.
+Qed.
+
+Lemma zcopy_same (d s : list (val A)) : length d = length s -> zcopy A d s = s.
+Proof.
+  intros H. unfold zcopy. rewrite H, firstn_all. rewrite skipn_all2 by lia. apply app_nil_r.
+Qed.
+
+Lemma zsplice_elems (l : list A) (a b : nat) (seg : list A) :
+  zsplice A (elems l) (Z.of_nat a) (Z.of_nat b) (elems seg) = elems (firstn a l ++ seg ++ skipn b l).
+Proof.
+  unfold zsplice. rewrite !Nat2Z.id, elems_firstn, elems_skipn, !elems_app. reflexivity.
+Qed.
 
 End Facts.
